@@ -97,7 +97,7 @@ func Property() runner.Property {
 	return runner.Property{
 		ID:          "C14",
 		Level:       "fault_enumeration",
-		Rule:        "every list failure kind {List error, error wrapping context.Canceled while the context is alive, non-list object, list of non-objects, object without list accessor} at the k-th list (k=1..2 quick, 1..3 thorough) x subscriber tree {bare, subscriber, clone + filtered clone + monitor + deferred subscription}; every watch failure kind {connect error once / forever, close after k frames, status, error, metadata-less frame} ; deliberate Close / context cancel; each scenario explored within d deviations of the default schedule (d=2 quick, 3 thorough) on the whole real controller; oracle at quiescence once the failing list has been issued: Done() closed, Error() carries the cause, every descendant done, nothing ready if the first list failed; watch failures: controller alive and ready; deliberate close: Error() nil; nothing leaks",
+		Rule:        "every list failure kind {List error, List error accompanied by an empty list object (client-go typed clients), error wrapping context.Canceled while the context is alive, non-list object, list of non-objects, object without list accessor} at the k-th list (k=1..2 quick, 1..3 thorough) x subscriber tree {bare, subscriber, clone + filtered clone + monitor + deferred subscription}; every watch failure kind {connect error once / forever, close after k frames, status, error, metadata-less frame} ; deliberate Close / context cancel; each scenario explored within d deviations of the default schedule (d=2 quick, 3 thorough) on the whole real controller; oracle at quiescence once the failing list has been issued: Done() closed, Error() carries the cause, every descendant done, nothing ready if the first list failed; watch failures: controller alive and ready; deliberate close: Error() nil; nothing leaks",
 		Assumptions: []string{"deviation-bounded whole-system exploration; a case is one (fault scenario, schedule) pair; distinct cases are counted by distinct terminal observations"},
 		Scenarios: func(tier string) []runner.Sc {
 			d := 2
@@ -121,7 +121,7 @@ func Property() runner.Property {
 				}
 				out = append(out, ctl.Scenario("C14", c, oracle(x)))
 			}
-			causes := map[string]string{"error": "injected API failure", "canceled": "context canceled", "nonlist": "Invalid type", "nonobjects": "Invalid type", "noaccessor": "Invalid type"}
+			causes := map[string]string{"error": "injected API failure", "error+list": "injected API failure", "canceled": "context canceled", "nonlist": "Invalid type", "nonobjects": "Invalid type", "noaccessor": "Invalid type"}
 			for _, k := range ks {
 				for kind, cause := range causes {
 					for tn, tr := range trees {
